@@ -395,12 +395,16 @@ func checkLimits(r *Run, rc *RuleCtx, cl *closures, addFn *ssa.Function) {
 		}
 		return 0, false
 	}
+	seenTypes := map[int64]bool{}
 	checkPair := func(where *ssa.Function, pos token.Pos, typ ssa.Value, eff int64) {
 		t, ok := constInt(typ)
 		if !ok {
 			return
 		}
 		want, known := textLimits[t]
+		if known {
+			seenTypes[t] = true
+		}
 		key := fmt.Sprintf("%s|type %#x", fnName(where), t)
 		rc.Instance(key, true, map[string]interface{}{"setter": fnName(where), "attr_type": fmt.Sprintf("%#04x", t), "effective_limit": eff, "reviewed_limit": want})
 		if !known {
@@ -489,9 +493,26 @@ func checkLimits(r *Run, rc *RuleCtx, cl *closures, addFn *ssa.Function) {
 				}
 			})
 		}
+		if n == 0 && s.fn.Object() != nil && s.fn.Object().Exported() {
+			// an exported setter nobody in the library calls any more: the limit is its caller's; the typed setters
+			// must then carry their own checks (every reviewed attribute type is accounted for below)
+			rc.Instance(fnName(s.fn)+"|limit from the caller", true, map[string]string{"setter": fnName(s.fn), "limit": "parameter of an exported function without library callers"})
+			continue
+		}
 		if n == 0 {
 			rc.Violation(s.fn, instrPos(s.call), "no caller with constant limit", "no library caller passes a constant limit: limits undecided")
 		}
+	}
+	// every attribute type of the reviewed table has a length check somewhere in the setter closure
+	var missing []int64
+	for t := range textLimits {
+		if !seenTypes[t] {
+			missing = append(missing, t)
+		}
+	}
+	sort.Slice(missing, func(i, j int) bool { return missing[i] < missing[j] })
+	for _, t := range missing {
+		rc.Violation(sites[0].fn, instrPos(sites[0].call), fmt.Sprintf("no length check for attribute %#04x", t), "no setter checks a value of this attribute type against a constant limit: the reviewed limit is not enforced")
 	}
 }
 
